@@ -262,7 +262,16 @@ pub(crate) fn compute_split_positions(
         }
 
         'inner: loop {
-            let current = scan.next().unwrap();
+            let current = match scan.next() {
+                Some(v) => v,
+                None => {
+                    // The remaining thresholds cannot be reached (e.g. empty
+                    // or zero-weight slab): put the split at the end.
+                    ret.push(permutation.len());
+                    current_weights_sums_cache.push(current_weights_sum);
+                    break 'inner;
+                }
+            };
             if current_weights_sum + current.1 > *threshold {
                 ret.push(current.0);
                 current_weights_sums_cache.push(current_weights_sum);
@@ -277,10 +286,11 @@ pub(crate) fn compute_split_positions(
         .zip(current_weights_sums_cache)
         .zip(weight_thresholds)
         .map(|((mut idx, mut sum), threshold)| {
-            while sum + weights[permutation[idx]] < threshold
+            while idx < permutation.len()
+                && (sum + weights[permutation[idx]] < threshold
                 // multiplication between modifiers and weights can cause nasty
                 // rounding precision loss which would put an element in a wrong part
-                || Ulps::default().eq(&threshold, &(sum + weights[permutation[idx]]))
+                || Ulps::default().eq(&threshold, &(sum + weights[permutation[idx]])))
             {
                 sum += weights[permutation[idx]];
                 idx += 1;
